@@ -227,6 +227,11 @@ func steerAmmo(c *AmmoCase, r *vf.Run) {
 		r.Excluded(fJSONArrayTrailer)
 		c.MustReject = false
 	}
+	if c.Format == "raw" && c.Mode == "meta" && c.MustReject && !bytes.HasSuffix(c.Data, []byte("\n")) && !strings.Contains(c.Garbage, "\n") && r.IsKnown(fRawLastLine) {
+		// a malformed header line that is the unterminated last line of the file: the shape of the listed finding
+		r.Excluded(fRawLastLine)
+		c.Data = append(c.Data, '\n')
+	}
 }
 
 // ---------------------------------------------------------------------------
@@ -452,6 +457,9 @@ func ammoBody(c AmmoCase, o *vf.Obs) error {
 			id := ""
 			if c.Format == "jsonline" && c.Valid.Layout.JSON == "array" {
 				id = fJSONArrayTrailer
+			}
+			if c.Format == "raw" && !bytes.HasSuffix(c.Data, []byte("\n")) && !strings.Contains(c.Garbage, "\n") {
+				id = fRawLastLine
 			}
 			return &violation{id: id, msg: fmt.Sprintf("%s (preload=%v, layout=%+v): malformed line %q after %d valid entries was not rejected: Run returned %v after %d entries",
 				c.Format, c.Preload, c.Valid.Layout, c.Garbage, E, res.RunErr, res.Delivered)}
